@@ -4,10 +4,10 @@ import glob, json, os, re, subprocess
 V = os.path.dirname(os.path.dirname(os.path.abspath(__file__)))
 P = os.path.join(V, "lean", "CircuitProofs", "Props")
 def count(pat, files): return sum(len(re.findall(pat, open(f).read(), re.M)) for f in files)
-hand = [f for f in glob.glob(P + "/*.lean") if not re.search(r"(Tie|All)\.lean$", f) or os.path.basename(f) in ("RunAll.lean", "RunDynAll.lean")]
+hand = [f for f in glob.glob(P + "/*.lean") if not re.search(r"(Tie|All)\.lean$", f) or os.path.basename(f) in ("RunAll.lean", "RunDynAll.lean", "ExecAll.lean")]
 gen = [f for f in glob.glob(P + "/*.lean") if re.search(r"C\d\d(Tie|All)\.lean$", f)]
 print("property theorems (hand-written Props/*):", count(r"^theorem ", hand))
-print("  of them about whole calls (RunAll, RunDynAll, RunDynView, RunDynC08):", count(r"^theorem ", [f for f in hand if os.path.basename(f).startswith("Run")]))
+print("  of them about whole calls (RunAll, RunDynAll, RunDynView, RunDynC08, ExecAll):", count(r"^theorem ", [f for f in hand if os.path.basename(f).startswith(("Run", "Exec"))]))
 print("tie re-declarations:", count(r"^tie_theorem ", gen))
 obl = 0
 for f in glob.glob(V + "/evidence/C*.json"):
